@@ -1128,6 +1128,13 @@ def np_unique(ex, args, kw):
     contents are outside the model (tasks that need them state the duplicate-free-enumeration contract themselves)."""
     v = args[0]
     items = v.items if isinstance(v, Vec) else (list(v) if isinstance(v, (list, tuple)) else None)
+    if items is not None and set(kw) == {"axis"} and kw["axis"] == 0 and items and \
+            all(isinstance(r, (tuple, list, Vec)) for r in items):
+        # rows of a concrete 2-D integer table: the distinct rows in lexicographic order (iterable of 1-D arrays)
+        rows = [tuple((as_const(x) if is_z3(x) else x) for x in (r.items if isinstance(r, Vec) else r)) for r in items]
+        if all(isinstance(x, int) and not isinstance(x, bool) for r in rows for x in r) and len({len(r) for r in rows}) == 1:
+            return [Vec(list(r), "array") for r in sorted(set(rows))]
+        raise Unsupported("np.unique(axis=0) of symbolic rows")
     if items is None or any(is_z3(x) for x in items) or kw:
         raise Unsupported("np.unique of symbolic contents")
     if not all(isinstance(x, (str, int, float)) for x in items):
